@@ -4,14 +4,15 @@
   The reference operations are Lean core `List` notions: `<+:` (prefix), `<:+` (suffix),
   `<:+:` (infix), `List.intercalate`, `take`/`drop`.
 
-  PARTIAL: `less_than`/`greater_than` are proved on integer literals of at most 15 digits only
-  (IEEE-754 parsing/rounding is outside the model).
+  `less_than`/`greater_than` on an exact model of `str::parse::<f64>` (correctly rounded IEEE-754
+  binary64) and of the IEEE comparison: Props/C16F64.lean (`C16_f64_…`).
   `uppercase`/`lowercase` over all of Unicode: Props/C16Case.lean (`C16_case_…`);
   `calc` against ordinary arithmetic in ℚ: Props/C16Calc.lean (`C16_calc_…`).
 -/
 import DuckModel.Sdk.Strings
 import DuckModel.Props.C16Case
 import DuckModel.Props.C16Calc
+import DuckModel.Props.C16F64
 import DuckModel.Lemmas.StringsLemmas
 import DuckModel.Lemmas.CharsLemmas
 
@@ -261,8 +262,8 @@ theorem C16_split_first_match (s t : Str) (ht : t ≠ []) :
 
 /-- `replace` is: split at the pattern, join with the replacement (every pattern, the empty
     one included) -/
-theorem C16_replace_spec (s p to : Str) :
-    replace s p to = (enc to).intercalate (split s p) := by
+theorem C16_replace_spec (s p rep : Str) :
+    replace s p rep = (enc rep).intercalate (split s p) := by
   unfold replace split
   split
   · have hne : s.map utf8EncodeChar ++ [[]] ≠ [] := by simp
@@ -386,39 +387,7 @@ theorem C16_range_cmd (a b : Str) (rest : List Str) :
       | some x, some y => if x > y then .err else .ints (rangeList x y)
       | _, _ => .err := rfl
 
-/-! ### less_than / greater_than (PARTIAL: integer literals of at most 15 digits) -/
-
-/-- the full statement the property asks for, relative to the real IEEE-754 functions
-    (`parseF64` = `str::parse::<f64>`, `lt` = `f64` `<`).  NOT proved and not true of this model,
-    which answers `unmodelled` beyond plain decimals of at most 15 digits: a model of
-    round-to-nearest decimal→binary conversion is missing (runtime behaviour of Rust `core`). -/
-def C16_compare_order_full {F : Type} (parseF64 : Str → Option F) (lt : F → F → Bool) : Prop :=
-  ∀ a b : Str, lessThan [a, b] =
-    match parseF64 a, parseF64 b with
-    | some x, some y => .bool (lt x y)
-    | _, _ => .err
-
-/-- on integer literals (what `str::parse::<i64>` accepts) of at most 15 characters the two
-    commands decide the integer order -/
-theorem C16_compare_order_partial (a b : Str) (v w : Int)
-    (ha : parseInt a = some v) (hb : parseInt b = some w)
-    (hla : a.length ≤ 15) (hlb : b.length ≤ 15) :
-    lessThan [a, b] = .bool (decide (v < w)) ∧ greaterThan [a, b] = .bool (decide (v > w)) := by
-  obtain ⟨x, hx, hxs, hxn, hxd⟩ := classify_int ha
-  obtain ⟨y, hy, hys, hyn, hyd⟩ := classify_int hb
-  have sx : x.small = true := by simp [Dec.small]; omega
-  have sy : y.small = true := by simp [Dec.small]; omega
-  constructor
-  · simp [lessThan, compareWith, hx, hy, sx, sy, Dec.lt, hxs, hys, hxn, hyn]
-  · simp [greaterThan, compareWith, hx, hy, sx, sy, Dec.lt, hxs, hys, hxn, hyn]
-
-/-- anything `str::parse::<f64>` rejects gives the error result -/
-theorem C16_compare_non_numeric (a b : Str)
-    (h : classifyF64 a = .invalid ∨ classifyF64 b = .invalid) :
-    lessThan [a, b] = .err ∧ greaterThan [a, b] = .err := by
-  rcases h with h | h
-  · simp [lessThan, greaterThan, compareWith, h]
-  · constructor <;> (simp only [lessThan, greaterThan, compareWith, h]; cases classifyF64 a <;> rfl)
+/-! ### less_than / greater_than: Props/C16F64.lean (`C16_f64_…`), on the exact binary64 model -/
 
 /-! ### non-vacuity: ASCII, multi-byte ("aé漢" = 61 c3a9 e6bca2), empty, error branches -/
 
@@ -450,9 +419,9 @@ example : parseInt "+5".toList = some 5 ∧ parseInt "+".toList = none ∧ parse
     parseInt " 1".toList = none ∧ parseInt "-0".toList = some 0 ∧
     parseI64 "9223372036854775808".toList = none ∧
     parseI64 "-9223372036854775808".toList = some (-9223372036854775808) := by decide
-example : lessThan ["-2".toList, "1.5".toList] = .bool true := by decide
-example : greaterThan ["0.10".toList, "0.1".toList] = .bool false := by decide
-example : lessThan ["1e5".toList, "2".toList] = .unmodelled := by decide
+example : lessThan ["-2".toList, "1.5".toList] = .bool true := by decide +kernel
+example : greaterThan ["0.10".toList, "0.1".toList] = .bool false := by decide +kernel
+example : lessThan ["1e5".toList, "2".toList] = .bool false := by decide +kernel
 example : lessThan ["abc".toList, "2".toList] = .err := by decide
 example : trimWith trim [" a b ".toList] = .str (enc "a b".toList) := by decide
 
